@@ -1500,3 +1500,143 @@ func signedParseRule(r *Report, p *Prog, rule string, pkgs ...string) int {
 	}
 	return n
 }
+
+// textFoldedRule: PEP 440 compares and normalises letters case-insensitively
+// (the normal form is lower case). The parser matches its keywords through a
+// case-insensitive prefix test and stores the table's spelling; any other text
+// it keeps from the input in the parsed extension must be lower-cased on the
+// way, or two spellings of one version (1.0+ABC, 1.0+abc) compare unequal.
+func textFoldedRule(r *Report, p *Prog, rule, structName string) int {
+	pk := p.pkg("semver")
+	if pk == nil {
+		r.bad(rule, "semver", "", "package not loaded")
+		return 0
+	}
+	obj := pk.Types.Scope().Lookup(structName)
+	if obj == nil {
+		r.bad(rule, "semver."+structName, "", "type not found: anchor lost")
+		return 0
+	}
+	st, ok := obj.Type().Underlying().(*types.Struct)
+	if !ok {
+		r.bad(rule, "semver."+structName, p.pos(obj.Pos()), "not a struct: anchor lost")
+		return 0
+	}
+	n := 0
+	for _, f := range p.Funcs {
+		if f.Pkg == nil || f.Blocks == nil || f.Pkg.Pkg.Path() != modPrefix+"semver" || f.Synthetic != "" {
+			continue
+		}
+		per := map[string]int{}
+		for _, b := range f.Blocks {
+			for _, in := range b.Instrs {
+				s, ok := in.(*ssa.Store)
+				if !ok {
+					continue
+				}
+				fa, ok := s.Addr.(*ssa.FieldAddr)
+				if !ok {
+					continue
+				}
+				pt, ok := fa.X.Type().Underlying().(*types.Pointer)
+				if !ok || !types.Identical(pt.Elem().Underlying(), st) || !types.Identical(pt.Elem(), obj.Type()) {
+					continue
+				}
+				fld := st.Field(fa.Field)
+				if bt, ok := fld.Type().Underlying().(*types.Basic); !ok || bt.Kind() != types.String {
+					continue
+				}
+				n++
+				per[fld.Name()]++
+				key := fmt.Sprintf("%s: %s.%s store #%d", fnKey(f), structName, fld.Name(), per[fld.Name()])
+				seen := map[ssa.Value]bool{}
+				var raw ssa.Value
+				var folded func(v ssa.Value, d int) bool
+				folded = func(v ssa.Value, d int) bool {
+					if seen[v] || d > 12 {
+						return true
+					}
+					seen[v] = true
+					switch x := v.(type) {
+					case *ssa.Const:
+						return true
+					case *ssa.Phi:
+						for _, e := range x.Edges {
+							if !folded(e, d+1) {
+								return false
+							}
+						}
+						return true
+					case *ssa.Slice:
+						return folded(x.X, d+1)
+					case *ssa.Call:
+						if sc := x.Common().StaticCallee(); sc != nil && sc.Pkg != nil && sc.Pkg.Pkg.Path() == "strings" {
+							switch sc.Name() {
+							case "ToLower":
+								return true
+							case "ReplaceAll", "Replace", "TrimSpace", "TrimPrefix", "TrimSuffix", "Trim", "TrimLeft", "TrimRight":
+								return folded(x.Common().Args[0], d+1)
+							}
+						}
+					case *ssa.UnOp:
+						// a load from a package-level table (or a field of one of its elements)
+						var root ssa.Value = x.X
+						for {
+							switch y := root.(type) {
+							case *ssa.FieldAddr:
+								root = y.X
+								continue
+							case *ssa.IndexAddr:
+								root = y.X
+								continue
+							case *ssa.UnOp:
+								root = y.X
+								continue
+							}
+							break
+						}
+						if _, ok := root.(*ssa.Global); ok {
+							return true
+						}
+						if al, ok := root.(*ssa.Alloc); ok && al.Referrers() != nil {
+							// a local copy (range variable): every whole-value store into it
+							stores := 0
+							for _, ref := range *al.Referrers() {
+								if st2, ok := ref.(*ssa.Store); ok && st2.Addr == ssa.Value(al) {
+									stores++
+									if !folded(st2.Val, d+1) {
+										return false
+									}
+								}
+							}
+							if stores > 0 {
+								return true
+							}
+						}
+					case *ssa.Field:
+						// field of a value copied out of a table element (range over a table)
+						return folded(x.X, d+1)
+					case *ssa.Extract:
+						return folded(x.Tuple, d+1)
+					case *ssa.Next:
+						return true // range over a package-level table; its Iter is checked by the table rules
+					}
+					if raw == nil {
+						raw = v
+					}
+					return false
+				}
+				if folded(s.Val, 0) {
+					r.ok(rule, key, p.pos(s.Pos()), "the stored text is a constant, a table spelling, or passes through strings.ToLower")
+				} else {
+					what := "text taken from the input"
+					if raw != nil && raw.Pos().IsValid() {
+						what += " (" + raw.Name() + " at " + p.pos(raw.Pos()) + ")"
+					}
+					r.bad(rule, key, p.pos(s.Pos()), "the parser keeps "+what+" in the parsed version without lower-casing it: PEP 440 treats letters case-insensitively, so two spellings of the same version compare unequal and have different canonical strings")
+				}
+			}
+		}
+	}
+	return n
+}
